@@ -59,6 +59,9 @@ CLAIMED = {
  "C18": ("other", "abstract interpretation of every container method over the element-index invariant + structural single-representation rules, for every generated instance",
    "Operation histories are runtime; decided for every instance are the representation invariants that make a container a plain list and an element a single slot: an interpreter over all 7,496 container-method instances of the 44 non-functional properties shows properties[i].myIdx==i ∧ parent==this restored at every exit (unrecognised writes fail); for all 103 properties clear resets every member/flag/iri/unknown, every typed setter clears first and writes exactly its member and flag, Is/Get read it, and every element literal anywhere fills at most one member with its own flag true; Next/Prev/At/Len have the stepping shape.",
    "Index expressions compared textually (sound for the generated forms; others are reported undecided). Trusted: go/parser, go/types, e5_model.go, the interpreter's statement forms.", "DESIGN.md §4 C18"),
+ "C11": ("other", "optional-getter nil-guard analysis (SSA must-facts, bottom-up dereference summaries, witnessed preconditions) + compiler-proved bounds (check_bce) + recursion/loop-progress shape rules",
+   "Absence of panics in general is not decided. Decided for all of package pub (and the literal codecs for bounds): every result of an optional vocabulary getter used as a receiver, or passed to a function that dereferences it, is known non-nil at the use or covered by a reviewed precondition whose witness is re-verified each run; GetIRI() only where IsIRI() is known; no un-checked type assertion; every index/slice the Go compiler cannot prove in bounds is in a reviewed table with its reason; every recursion is depth-guarded or structural; every loop without post statement makes progress.",
+   "Application interfaces are assumed to return non-nil values with a nil error; panics of other origin and application code are not covered. Trusted: go/types, go/ssa, the gc prove pass, e2_facts.go.", "DESIGN.md §4 C11"),
 }
 NOT_YET = {}
 ALL = ["C%02d" % i for i in range(1, 21)]
